@@ -13,8 +13,8 @@ func ToModel(g graph.Graph) *model.G {
 	return model.FromEdgeFunc(g.N(), func(i, j int) bool { return g.IsEdge(i, j) })
 }
 
-// DenseWellFormed checks a *DenseGraph produced by the search: field lengths, 0/1
-// bytes, symmetric IsEdge, M and Degrees recomputed, Neighbours ascending.
+// DenseWellFormed checks a *DenseGraph produced by the search: field lengths, symmetric
+// IsEdge consistent with the edge bytes (any non-zero byte marks an edge), M and Degrees recomputed, Neighbours ascending.
 func DenseWellFormed(g *graph.DenseGraph, n int) string {
 	if g == nil {
 		return "nil graph"
@@ -28,11 +28,6 @@ func DenseWellFormed(g *graph.DenseGraph, n int) string {
 	if len(g.DegreeSequence) != n {
 		return fmt.Sprintf("DegreeSequence has length %d, want %d", len(g.DegreeSequence), n)
 	}
-	for i, b := range g.Edges {
-		if b > 1 {
-			return fmt.Sprintf("Edges[%d] = %d", i, b)
-		}
-	}
 	deg := make([]int, n)
 	m := 0
 	for j := 0; j < n; j++ {
@@ -41,7 +36,7 @@ func DenseWellFormed(g *graph.DenseGraph, n int) string {
 			if a != b {
 				return fmt.Sprintf("IsEdge(%d,%d) != IsEdge(%d,%d)", i, j, j, i)
 			}
-			if a != (g.Edges[j*(j-1)/2+i] == 1) {
+			if a != (g.Edges[j*(j-1)/2+i] != 0) {
 				return fmt.Sprintf("IsEdge(%d,%d) disagrees with Edges", i, j)
 			}
 			if a {
